@@ -982,6 +982,10 @@ func checkCase(c *Case, limit time.Duration) (res Result, hung bool) {
 			fail("panic", o.errMsg, "")
 			continue
 		}
+		if o.kind == "again-differs" {
+			fail("again-differs", o.errMsg, "")
+			continue
+		}
 		if o.kind == "unusable" {
 			fail("engine-unusable", o.errMsg, "")
 			continue
